@@ -941,7 +941,11 @@ func runDotQuoting(p *Program, c *Collector, d FuncRuleSpec) {
 					}
 					seen[key] = true
 					n++
-					if isEscaped(pt) {
+					if okE, wit, decided := escapeSafe(pt); decided && okE {
+						c.Ob(d.Props, "E7.dot-quoting", key, Discharged, "operand passes through an escaping that keeps every sample (quotes, backslashes, both) inside the quoted string", p.InstrPos(in), true)
+					} else if decided {
+						c.Ob(d.Props, "E7.dot-quoting", key, Violated, d.What+": "+name+" is spliced between double quotes, and its escaping turns "+wit+": the quoted string ends early or never ends (malformed DOT)", p.InstrPos(in), false)
+					} else if isEscaped(pt) {
 						c.Ob(d.Props, "E7.dot-quoting", key, Discharged, "operand passes through quote escaping before it is spliced between quotes", p.InstrPos(in), true)
 					} else {
 						c.Ob(d.Props, "E7.dot-quoting", key, Violated, d.What+": "+name+" is spliced between double quotes without escaping: a name containing a quote yields malformed DOT", p.InstrPos(in), false)
@@ -965,6 +969,55 @@ func flattenSymConcat(t *Sym, out *[]*Sym) {
 }
 
 // isEscaped: strings.ReplaceAll(x, "\"", "\\\"") (possibly through an inlined helper)
+// dotSafe: spliced between two double quotes, does the text stay one DOT string? (a backslash escapes the next character)
+func dotSafe(out string) bool {
+	for i := 0; i < len(out); i++ {
+		switch out[i] {
+		case '\\':
+			if i+1 >= len(out) {
+				return false // would escape the closing quote
+			}
+			i++
+		case '"':
+			return false
+		}
+	}
+	return true
+}
+
+// escapeSafe evaluates the operand as a function of its single string-valued base term on samples containing quotes and
+// backslashes. decided=false when the operand is not such a function.
+func escapeSafe(t *Sym) (ok bool, witness string, decided bool) {
+	ev := &evaluator{e: env{}, missing: map[string]string{}, kinds: map[string]string{}}
+	ev.eval(t, "string")
+	if len(ev.missing) != 1 {
+		return false, "", false
+	}
+	var key string
+	for k, h := range ev.missing {
+		if h != "string" && h != "" {
+			return false, "", false
+		}
+		key = k
+	}
+	// the operand must transform its input at all (a bare name is "not escaped", reported by the caller)
+	if t.String() == key {
+		return false, "", false
+	}
+	for _, sample := range []string{"ab", "a\"b", "\\", "a\\", "\\\"", "\"\\\"\"", "say \"hi\\\""} {
+		e := env{key: val{k: 's', s: sample}}
+		ev2 := &evaluator{e: e, missing: map[string]string{}, kinds: map[string]string{key: "string"}}
+		out := ev2.eval(t, "string")
+		if out.k != 's' || len(ev2.missing) > 0 {
+			return false, "", false
+		}
+		if !dotSafe(out.s) {
+			return false, fmt.Sprintf("%q into %q", sample, out.s), true
+		}
+	}
+	return true, "", true
+}
+
 func isEscaped(t *Sym) bool {
 	if t.Op == "pred" && t.Name == "replaceAll" && len(t.Kids) == 3 {
 		from, ok1 := symStr(t.Kids[1])
